@@ -41,6 +41,9 @@ class FrameRead:
                     self.cls = type(s).__name__
                 except BaseException:  # noqa - a type that does not tell its name: whatever is reported is accepted
                     self.cls = ANY
+            if self.cls is not ANY and type(self.cls) is not str:
+                # a class whose name is not text: any text (or none) is accepted, a snapshot is due all the same
+                self.cls = ANY
 
 
 def read_stack(frame):
@@ -67,7 +70,8 @@ def safe_str(o):
 def type_name(o):
     """type(o).__name__, or 'unknown' when the type does not tell its name."""
     try:
-        return type(o).__name__
+        n = type(o).__name__
+        return n if type(n) is str else str.__str__(str(n))   # (a name that is not text: its text form, if it has one)
     except BaseException:  # noqa
         return 'unknown'
 
